@@ -406,10 +406,22 @@ def run(chk):
         zfp = summ.forward_local_arrays(zps)          # a draw may reach b through a scratch buffer private to the call
         stz, detz, nz_ = coverage.filled_by(
             zfp, sym.arrow(P(zr, "b"), "coefsT"), sym.arrow(P(zk, "params"), "N"),
-            lambda val, ix: None if (val[0] == "call" and val[1] == "gaussian32" and val[2] == (ZERO, sym.sym(za))) else
+            lambda val, ix: None if summ.is_gaussian_draw(zps, val, sym.sym(za)) else
             "b[%s] = %s is not gaussian32(0, alpha)" % (sym.show(ix), sym.show(val)[:60]))
         if stz == "unknown":
             chk.broken("tLweSymEncryptZero: %s" % detz)
+        if stz == "refuted":
+            later = summ.noise_added_later(zps, sym.arrow(P(zr, "b"), "coefsT"))
+            opq = [q_ for q_ in summ.opaque_writers(v, zps) if q_["kind"] in ("while", "unknown", "asm")]
+            if later is None and opq:
+                chk.broken("tLweSymEncryptZero: %s may write b, which the analysis does not see through" % summ.show_opaque(opq))
+            if later is not None:
+                chk.broken("tLweSymEncryptZero: the noise is added to b after the products (line %s), an arrangement this rule does not decide" % later["line"])
+        if stz == "proved":
+            once = summ.value_not_redrawn(zfp, sym.arrow(P(zr, "b"), "coefsT"), lambda c_: c_["name"] == "gaussian32" or c_["name"].endswith("operator()"))
+            if once is not None:
+                stz, detz = "refuted", ("the Gaussian stored by the statement at line %s is drawn once, outside the loop that stores it: all %s "
+                                        "coefficients of b receive the same error value (in-row variance 0)" % (once["line"], "N"))
         chk.require(stz == "proved", "R2", "tLweSymEncryptZero draws an independent Gaussian for each of the N coefficients of b", where=ez.where,
                     ok="b[j] = gaussian32(0, alpha), j < N (%d statement(s); %s)" % (nz_, detz), bad=detz, variant=vn)
         # ---------------- R3 masks
@@ -437,6 +449,10 @@ def run(chk):
                 return "a[%s] = %s is not a draw from uniformTorus32_distrib with the process generator itself" % (sym.show(ix), sym.show(val)[:80])
             ms = [p for p in summ.forward_local_arrays(summ.forward_stored_calls(ps)) if not p.get("byref")]
             stm, detm, nm_ = coverage.filled_by(ms, P(r, "a"), sym.arrow(P(ky, "params"), "n"), fresh_uniform)
+            if stm == "proved":
+                once = summ.value_not_redrawn(ms, P(r, "a"), lambda c_: "operator()" in c_["name"])
+                if once is not None:
+                    stm, detm = "refuted", "the value stored by the statement at line %s is drawn once, outside the loop that stores it: every mask coefficient is the same" % once["line"]
             if stm == "unknown":
                 chk.broken("%s: mask statements: %s" % (name, detm))
             chk.require(stm == "proved", "R3", "%s assigns every mask coefficient a fresh uniformTorus32 draw" % name, where=f.where,
